@@ -431,7 +431,7 @@ def run_check(prop_id: str, tier: str, *, base_seed: int | None = None, budget_s
                             rc = 1
                         continue
                     f = finding_for(findings, prop_id, key[0], key[1])
-                    if f is not None:
+                    if f is not None and not os.environ.get("TLSIM_WRITE_KNOWN"):
                         known_hit.append(f)
                         continue
                     small, v2, tried = minimise.minimise(hist, prop_id, key, sx_for(hs), budget_s=per_budget, run_timeout=run_timeout)
@@ -441,6 +441,9 @@ def run_check(prop_id: str, tier: str, *, base_seed: int | None = None, budget_s
                     f = finding_for(findings, prop_id, key2[0], key2[1])
                     if f is not None:
                         known_hit.append(f)
+                        if os.environ.get("TLSIM_WRITE_KNOWN"):
+                            # maintenance: refresh the committed replay file of a known finding
+                            _write_replay(replay_dir, prop_id, res["seed"], small, v2, hs)
                         continue
                     path = _write_replay(replay_dir, prop_id, res["seed"], small, v2, hs)
                     lines.append(f"VIOLATION property={prop_id} replay={path}")
